@@ -9,6 +9,7 @@ import Mathlib.Algebra.Order.Field.Basic
 import TjdModel.Agg.Nash
 import TjdLemmas.NashLemmas
 import TjdLemmas.SeqLemmas
+import TjdLemmas.NashScale
 namespace Tjd.Props.C19
 open Tjd Tjd.Agg
 
@@ -128,5 +129,20 @@ theorem clipped_run_eq_clip_of_unclipped (solve : Mat α → Vec α → Vec α) 
       ∃ J, ((nashRun solve norm m k maxNorm st ops).getD i ([], [], false)).2.1 =
         nashRescale norm maxNorm J ((nashRun solve norm m k 0 st ops).getD i ([], [], false)).2.1 := by
   exact nashRun_clip solve norm m k maxNorm st ops
+
+/-! ### the bargaining condition and the scale of the matrix (what the check tests at a scheduled recomputation that follows
+      one on a proportional matrix, DESIGN §10.19) -/
+
+/-- the products `α_i (J Jᵀ α)_i` of the bargaining condition, for the matrix `c J` and the SAME weights, are `c²` times those
+    for `J`: weights carried over from `J` to `c J` (instead of recomputed) miss the condition `= 1` by the factor `c²` -/
+theorem nash_products_scale (J : Mat α) (m n : Nat) (hJ : MatWF J m n) (a : Vec α) (ha : a.length = m) (c : α) (i : Nat) (hi : i < m) :
+    a.getD i 0 * (matVec (gram (J.map (smul c))) a).getD i 0 = c * c * (a.getD i 0 * (matVec (gram J) a).getD i 0) := by
+  exact nash_products_scale_ns J m n hJ a ha c i hi
+
+/-- … while the weights divided by `c` meet it again: the bargaining solution of `c J` is `α / c` -/
+theorem nash_solution_scale (J : Mat α) (m n : Nat) (hJ : MatWF J m n) (a : Vec α) (ha : a.length = m) (c : α) (hc : c ≠ 0)
+    (h : ∀ i, i < m → a.getD i 0 * (matVec (gram J) a).getD i 0 = 1) (i : Nat) (hi : i < m) :
+    (a.map (· / c)).getD i 0 * (matVec (gram (J.map (smul c))) (a.map (· / c))).getD i 0 = 1 := by
+  exact nash_solution_scale_ns J m n hJ a ha c hc h i hi
 
 end Tjd.Props.C19
